@@ -25,17 +25,17 @@ CHECKS = {
  "C06": ("process-level resource monitors: counting global allocator with cap, bounded thread stack, panic monitor, confirmed wall-clock watchdog, in worker processes",
          "Every input of the token-sequence space is compiled under the monitors; aborts are observed by the parent and confirmed by re-running the input alone.",
          "Time is observed through allocation counts and a confirmed watchdog, not a cycle bound; the allocation cap is a calibrated constant (64 MiB + 2 MiB per pattern byte).", "3 C06"),
- "C07": ("invariant monitor on hooked VM counters (backtracks, steps) with online step cap; metamorphic over backtrack limits incl. the exact threshold",
-         "Per (pattern, text): the run is repeated under 8 fixed limits and the exact thresholds B, B-1 read through the hook; the step bound is enforced online.",
+ "C07": ("invariant monitors on hooked VM counters (backtracks, steps, uncounted resumptions) with online step cap; metamorphic over backtrack limits incl. the exact threshold; limit-efficacy stress on catastrophic pattern families and long texts",
+         "Per (pattern, text): the run is repeated under 11 fixed limits (incl. values beyond 2^32) and the exact thresholds B, B-1 read through the hook; the step bound is enforced online; catastrophic families must be ended by small limits within a bounded number of steps.",
          "The step bound K is a calibrated constant; evidence reports how close the run came.", "3 C07"),
  "C08": ("history monitor: the whole find_iter sequence against an iteration model driven by the reference matcher, plus model-free order invariants and induced Err histories",
          "Every yielded sequence in the explored space is compared item by item.",
          "Patterns with \\K below a look-behind (finding FK) have no defined model sequence; F1 class left out.", "3 C08"),
  "C09": ("metamorphic monitor: the search entry points against each other on the unrestricted space",
          "is_match / find / captures / *_from_pos / find_iter / captures_iter must tell one story for every case, including where an Err appears.", "No reference involved.", "3 C09"),
- "C10": ("history monitor: split / splitn item sequences (every prefix of next() calls) against the partition defined by the crate's own find_iter",
+ "C10": ("history monitor: split / splitn item sequences (every prefix of next() calls) against the partition defined by the crate's own find_iter and, where reference semantics exist, by the reference iteration model; builder-option variants",
          "Every (pattern, text, limit) of the explored space.", "find_iter itself is judged by C08.", "3 C10"),
- "C11": ("reference-model monitor: try_replacen / replace* against a model built from the crate's captures_iter and the replacer's own output; fast path vs captures path; induced search errors",
+ "C11": ("reference-model monitor: try_replacen / replace* against a model built from the crate's captures_iter and the replacer's own output, stateful replacers (call order), groups and matches of the reference matcher; fast path vs captures path; induced search errors",
          "Every (pattern, text, limit, replacer) of the explored space.", "Template expansion itself is judged by C12.", "3 C11"),
  "C12": ("reference-model monitor: all six expansion entry points against an independent expander written from the documentation; exhaustive small templates",
          "All templates up to the length bound over the property's 14-symbol alphabet x 4 capture sets x both syntaxes; escape round trip; check soundness.",
@@ -43,21 +43,21 @@ CHECKS = {
  "C13": ("invariant monitor on hooked analysis facts: every node's min_size / const_size against match lengths enumerated by the reference matcher; differential on look-behinds over multi-byte texts",
          "Every node of every analysable pattern of the unrestricted space is confronted with the lengths actually observed.",
          "The converse direction (every fixed-length body is accepted) is not claimed by the property.", "3 C13"),
- "C14": ("metamorphic monitor over builder options; regex-automata itself as the oracle for exceeding a size limit",
+ "C14": ("metamorphic monitor over builder options plus an independent spelled-out statement of case-insensitivity (case-orbit classes); regex-automata itself as the oracle for exceeding a size limit",
          "Option routes must agree: case_insensitive(true) vs a leading (?i), neutral options, size limits per delegated piece, backtrack limit per route.",
          "Size-limit verdicts are only judged where the oracle agrees with itself at n/4 and 4n.", "3 C14"),
  "C15": ("reference-model monitor over conditional patterns + auxiliary-stack pairing invariant at a VM hook",
          "Conditionals at every nesting position of the explored space are executed and compared with the model; BeginAtomic/EndAtomic pairing is asserted inside vm::run.",
          "Trusted: reference rule 6; a disagreement is attributed to finding FJ only when the run itself shows the leaked aux-stack entry being consumed.", "3 C15"),
- "C16": ("reference-model monitor: group metadata against the truth known to the pattern generator, on both routes",
+ "C16": ("reference-model monitor: group metadata against the truth known to the pattern generator, on both routes; iterator protocol of Captures::iter and out-of-range indices incl. overflowing ones",
          "captures_len, capture_names, Captures::{len,iter,get,name} for every pattern spelling (unnamed / named / mixed) and its VM twin.", "The generator's own group numbering is the oracle.", "3 C16"),
- "C17": ("reference-model monitor: escape() embedded in 11 host patterns against plain string search; exhaustive short strings",
-         "All strings up to the length bound over 40 symbols incl. every ASCII punctuation character.", "'Needs escaping' is stated independently of the crate (regex meta-characters plus #).", "3 C17"),
- "C18": ("sanitizers: ThreadSanitizer build and Miri (16 seeds) of a multi-thread stress monitor that compares every concurrent result with a single-threaded table; static Send+Sync+Clone assertion",
-         "Results under 2-16 threads on shared and cloned Regex values must equal the single-threaded ones; data races / UB are reported by TSan and Miri.",
+ "C17": ("reference-model monitor: escape() embedded in 22 host patterns against plain string search, searched from every character boundary; exhaustive short strings",
+         "All strings up to the length bound over 42 symbols incl. every ASCII punctuation character.", "'Needs escaping' is stated independently of the crate (regex meta-characters plus #).", "3 C17"),
+ "C18": ("sanitizers: ThreadSanitizer build and Miri (16 seeds) of a multi-thread stress monitor that compares every concurrent result with a single-threaded table (hot-pattern, cold-start and long-search rounds, tight-limit twins, clone program equality, deadlock watchdog); static Send+Sync+Clone assertion",
+         "Results under 2-32 threads on shared and cloned Regex values must equal the single-threaded ones and every thread must come back; data races / UB are reported by TSan and Miri.",
          "Interleavings are those the OS, TSan and 16 Miri seeds produce; no claim about all schedules.", "3 C18"),
  "C19": ("metamorphic monitor: documented-equivalent spellings must parse to equal trees (Expr::parse_tree) and behave identically",
-         "13 respelling families applied at every applicable site plus hand-written pairs.", "Named spellings of forward references do not exist and are skipped.", "3 C19"),
+         "15 respelling families applied at every applicable site (also inside (?i:..), (?U:..), (?s:..)) plus hand-written pairs.", "Named spellings of forward references do not exist and are skipped.", "3 C19"),
  "C20": ("invariant-at-a-hook monitors: exhaustive operation sequences on the real State (wrapper hook) against a whole-state-copy model; lock-step shadow of the backtracking state during real VM runs",
          "All valid operation sequences up to the depth bound, seeded random long sequences, and program-level replay on committing-context patterns.",
          "Validity of sequences follows VM discipline.", "3 C20"),
